@@ -79,6 +79,7 @@ def rename_enum(t, frm, to):
 def run(chk, tier):
     prog, info = common.program("all")
     common.note_extraction(chk, info, prog)
+    common.vacuity(chk, ['R-WIRE', 'R-TABLE'])
     chk.explanation = ("Value numbering (with the chrono axioms of C08) reduces Message::radial and Message::into_radial to one canonical term "
                        "Ok(Radial{..}) over the message's fields; it is compared with the specified mapping (timestamp = header instant in epoch ms, numbers, "
                        "angles, spacing = f32(code) * 0.5, the six-way status identity, seven moments in Radial::new's parameter order built from "
